@@ -4,6 +4,7 @@ import (
 	"bytes"
 	"encoding/base64"
 	"fmt"
+	"regexp"
 	"strings"
 	"testing"
 	"time"
@@ -75,6 +76,13 @@ func genC10Payload(r *Rand) C10Payload {
 		return envelope(strings.Join(parts, " "))
 	case 4, 5: // map with a mutated query
 		q := c10Queries[r.Intn(len(c10Queries))]
+		if r.Bool(0.04) {
+			// a non-positive interval: on the unchanged tree the aggregate timer
+			// spins (no crash; the run hits its reduced step cap and is
+			// inconclusive, DESIGN §10), but a timer API that rejects such a
+			// value would take the server down
+			q = "select count($line) from STATS group by $hostname interval " + PickOf(r, "0", "0", "-1", "-5") + " logformat generic"
+		}
 		if r.Bool(0.3) {
 			// token-level mutation
 			toks := strings.Fields(q)
@@ -143,6 +151,9 @@ func c10Run(t *testing.T, s Scenario, src verifsim.DecisionSource, keep bool) *R
 	np := sc.Net
 	stalls := stallRules([]StallSpec{{Name: "reader.perline", Site: "io/fs/readfilelcontext.go", Suffix: "/ranged", From: 0, To: -1, DurMs: 20}})
 	opts := RunOpts{Src: src, KeepLabels: keep, MaxFake: 8 * time.Minute, Stalls: stalls, Net: &np, MaxSteps: 300000}
+	if c10HasSpinQuery(sc) {
+		opts.MaxSteps = 25000
+	}
 	victimLines, victimSyn, victimErr := 0, false, ""
 	type attState struct {
 		gotAny, closed bool
@@ -392,4 +403,19 @@ func init() {
 		Sample:   c10Sample,
 		Triggers: map[string]func(Scenario) (Scenario, bool){},
 	})
+}
+
+var c10SpinRe = regexp.MustCompile(`(?i)interval\s+(0|-\d+)\b`)
+
+// c10HasSpinQuery reports whether an attacker sends a query with a
+// non-positive interval (see genC10Payload).
+func c10HasSpinQuery(sc *C10Scenario) bool {
+	for _, a := range sc.Attackers {
+		for _, p := range a.Payloads {
+			if c10SpinRe.Match(p.B) {
+				return true
+			}
+		}
+	}
+	return false
 }
